@@ -10,7 +10,7 @@ expect_panic (regex: the obligation is 'the call always panics with this message
 OBS = []
 
 
-def K(id, props, harness, fns, stmt, pkg="owlchess", tier="quick", assumes=(), timeout=900, mem_gb=14,
+def K(id, props, harness, fns, stmt, pkg="owlchess", tier="quick", assumes=(), timeout=900, mem_gb=10,
       solver="kissat", bounded=None, expect_panic=None):
     OBS.append(dict(id=id, props=list(props), backend="kani-bounded" if bounded else "kani-complete", pkg=pkg,
                     harness=harness,
@@ -100,20 +100,18 @@ K("C15/attack/leapers-pawns", ["C15", "C19"], A + "c15_leapers_and_pawns", ["att
   "for all 64 squares (both colours): king/knight/pawn attack sets == the sets of on-board squares at the king / knight / pawn-capture offsets; table index in bounds")
 K("C15/attack/bishop", ["C15", "C19"], A + "c15_bishop_all_squares_all_occupancies", ["attack::bishop"],
   "for all 64 squares x all 2^64 occupancies: bishop(sq, occ) == squares reached by sliding diagonally up to and including the first occupied square; lookup pointer in bounds", timeout=1800)
-MASKED = ["C15/attack/rook-masked-read/sq%02d" % _i for _i in range(64)]
-for _i in range(64):
-    K(MASKED[_i], ["C15", "C19"], A + "c15_rook_masked_sq%02d" % _i, ["attack::rook"],
-      "square %d x all 2^64 occupancies: rook(sq, occ) == rook(sq, occ & mask[sq]); the lookup pointer is in bounds for every occupancy" % _i, timeout=900)
 K("C15/attack/rook-relevant-occupancy", ["C15"], A + "c15_rook_relevant_occupancy_lemma", ["attack::MAGIC_ROOK[..].mask"],
   "for all squares x all 2^64 occupancies: sliding along rank and file sees the occupancy only through occ & mask[sq]; mask[sq] == own rank and file minus the far edge squares minus sq", timeout=1800)
 N("C15/attack/rook-mask-subsets", ["C15"], A + "n15_rook_enumerate_all_mask_subsets", ["attack::rook"],
   "for all 64 squares and all 102400 subsets of mask[sq]: rook(sq, subset) == sliding reference (exhaustive native evaluation of the real lookup)",
-  assumes=MASKED + ["C15/attack/rook-relevant-occupancy"])
+  assumes=["C15/attack/rook-relevant-occupancy", "C15/attack/lookup-bounds"])
+N("C15/attack/lookup-bounds", ["C15", "C19"], A + "n15_lookup_regions_in_bounds", ["attack::rook", "attack::bishop", "attack::MAGIC_ROOK", "attack::MAGIC_BISHOP"],
+  "for all 64 squares, rook and bishop: 1 <= shift < 64, popcount(mask) == 64 - shift, and [lookup, lookup + 2^(64-shift)) lies inside the lookup table - so (x * magic) >> shift indexes in bounds for EVERY x (exhaustive native evaluation of the 128 table entries)")
 N("C15/attack/bishop-mask-subsets", ["C15"], A + "n15_bishop_enumerate_all_mask_subsets", ["attack::bishop"],
   "redundant cross-check: for all squares and all subsets of the bishop mask, bishop == sliding reference (exhaustive native evaluation)", tier="thorough")
 for _i in range(64):
     K("C15/attack/rook-sq%02d" % _i, ["C15", "C19"], A + "c15_rook_sq%02d" % _i, ["attack::rook"],
-      "square %d x all 2^64 occupancies: rook == sliding reference, lookup pointer in bounds (direct CBMC proof)" % _i, tier="thorough", timeout=3600)
+      "square %d x all 2^64 occupancies: rook == sliding reference, lookup pointer in bounds (direct CBMC proof)" % _i, tier="thorough", timeout=3600, mem_gb=16)
 K("C15/between/all-pairs", ["C15", "C19"], "between::verif_kani::c15_between_all_pairs", ["between::bishop_strict", "between::rook_strict", "between::is_bishop_valid", "between::is_rook_valid"],
   "for all 64x64 pairs: is_bishop_valid iff distinct on a common diagonal, is_rook_valid iff distinct on a common rank/file; for aligned pairs *_strict(a,b) == *_strict(b,a) == squares strictly between")
 K("C15/between/spec-link", ["C15"], "between::verif_kani::c15_between_ref_is_sliding_geometry", [],
